@@ -43,6 +43,7 @@ type Engine struct {
 	lockClasses   map[string]bool // "pkg.Type.mutexPath" -> sections must be non-blocking
 	structInvs    []*StructInv
 	writerIssues  []writerIssue
+	callersDecls  []*callersDecl
 	conformIfaces map[string]bool // interfaces whose in-repo implementations are checked against the interface contracts
 	tagSeq        int64
 	solverSem     chan struct{} // bounds the number of concurrently running solver processes started from within one function
@@ -126,6 +127,7 @@ func loadEngine(repoDir string, pkgPaths []string) (*Engine, error) {
 	e.findMutableGlobals()
 	e.inferEffects()
 	e.checkSignatures()
+	e.checkCallers()
 	return e, nil
 }
 
@@ -1061,6 +1063,82 @@ func (e *Engine) resolveStructInvs() error {
 	return nil
 }
 
+
+// callersDecl: `callers Iface.method : f1, f2` -- only the listed functions (of
+// the declaring package) may invoke the interface method, or call a method of
+// that name on a type of the package that implements the interface.
+type callersDecl struct {
+	Pkg     *types.Package
+	Iface   string
+	Method  string
+	Allowed []string
+	Props   []string
+}
+
+func (e *Engine) checkCallers() {
+	for _, cd := range e.callersDecls {
+		obj, _ := cd.Pkg.Scope().Lookup(cd.Iface).(*types.TypeName)
+		if obj == nil {
+			e.writerIssues = append(e.writerIssues, writerIssue{msg: fmt.Sprintf("callers %s.%s: no such interface", cd.Iface, cd.Method)})
+			continue
+		}
+		iface, _ := obj.Type().Underlying().(*types.Interface)
+		if iface == nil {
+			e.writerIssues = append(e.writerIssues, writerIssue{msg: fmt.Sprintf("callers %s.%s: not an interface", cd.Iface, cd.Method)})
+			continue
+		}
+		allowed := map[string]bool{}
+		props := append([]string{}, cd.Props...)
+		for _, a := range cd.Allowed {
+			allowed[a] = true
+		}
+		for k, con := range e.contracts {
+			if f2 := e.funcs[k]; f2 != nil && f2.Pkg != nil && f2.Pkg.Pkg == cd.Pkg && allowed[f2.Name()] {
+				props = append(props, con.Props...)
+			}
+		}
+		names := make([]string, 0, len(e.funcs))
+		for k := range e.funcs {
+			names = append(names, k)
+		}
+		sort.Strings(names)
+		for _, k := range names {
+			fn := e.funcs[k]
+			if fn.Pkg == nil || fn.Pkg.Pkg != cd.Pkg || len(fn.Blocks) == 0 {
+				continue
+			}
+			root := fn
+			for root.Parent() != nil {
+				root = root.Parent()
+			}
+			if allowed[root.Name()] {
+				continue
+			}
+			// the implementations' own methods of that name may call each other (wrappers)
+			if root.Signature.Recv() != nil && root.Name() == cd.Method && types.Implements(root.Signature.Recv().Type(), iface) {
+				continue
+			}
+			for _, b := range fn.Blocks {
+				for _, ins := range b.Instrs {
+					ci, ok := ins.(ssa.CallInstruction)
+					if !ok {
+						continue
+					}
+					com := ci.Common()
+					hit := false
+					if com.IsInvoke() {
+						hit = com.Method.Name() == cd.Method && types.Identical(com.Value.Type().Underlying(), iface)
+					} else if sc := com.StaticCallee(); sc != nil && sc.Name() == cd.Method && sc.Signature.Recv() != nil {
+						hit = types.Implements(sc.Signature.Recv().Type(), iface)
+					}
+					if hit {
+						e.writerIssues = append(e.writerIssues, writerIssue{props: props, msg: fmt.Sprintf("callers %s.%s: invoked in %s, which is not one of the declared callers (%s)", cd.Iface, cd.Method, fn, strings.Join(cd.Allowed, ", "))})
+					}
+				}
+			}
+		}
+	}
+}
 
 // checkSignatures marks contracts whose header no longer matches the function
 // it names (parameter count or names differ): such a contract would bind its
